@@ -81,6 +81,20 @@ ISeq = SeqSort(IntSort())
 joined = Function("net_joined", ISeq, ISeq, Int, Int, Bool)   # some edge record joins the two ids (either orientation)
 delnth = Function("delnth", RSeq, Int, RSeq)           # List.eraseIdx (del s[i], 0 <= i < len s)
 minus = Function("minus", RSeq, RSeq, RSeq)            # List.diff: remove one occurrence of each element of the second list
+# --- PlantUML option tables / string building (C14) ---------------------------------------------------------------------------
+mro_len = Function("mro_len", Cls, Int)                # len(cls.__mro__)  (>= 1)
+mro_at = Function("mro_at", Cls, Int, Cls)             # cls.__mro__[i]; mro_at(c, 0) = c
+cls_name = Function("cls_name", Cls, Str)              # cls.__name__
+py_str = Function("py_str", Ref, Str)                  # str(obj) = format(obj, "") of an opaque value
+str_box = Function("str_box", Str, Ref)                # a str seen as an opaque value (py_str(str_box(s)) = s)
+opt_skin = Function("opt_skin", Ref, Ref)              # options["skinparams"] of an option table (an attrs-like dict)
+opt_has_skin = Function("opt_has_skin", Ref, Bool)     # "skinparams" in options
+is_pattern = Function("is_pattern", Ref, Bool)         # isinstance(x, re.Pattern)
+rx_compile = Function("rx_compile", Str, Ref)          # re.compile(s)  (is_pattern holds of it)
+join_o = Function("join_o", Str, Ref, Str)             # sep.join(x) for an opaque iterable of strings x
+fmt_apply = Function("fmt_apply", Ref, Ref, Ref)       # fmt.format(**mapping)
+chars = Function("chars", Str, SSeq)                   # list(s): the characters of s ("".join(chars(s)) = s)
+ocall2_str = Function("ocall2_str", Ref, Ref, Ref, Str)  # the string a user function f(a, b) returns (A7: deterministic)
 
 _counter = itertools.count()
 
@@ -429,7 +443,8 @@ class Scanner:
     """One-pass, incremental classification of the subterms of a growing set of formulas (raw C API: the Python
     wrappers of z3 are too slow for the term sizes produced by explicit heap updates)."""
 
-    CATS = ("cnt", "rem1", "without", "dedup", "setnth", "minus", "sub", "nth", "ref", "mkpair", "cls_ref")
+    CATS = ("cnt", "rem1", "without", "dedup", "setnth", "minus", "sub", "nth", "ref", "mkpair", "cls_ref", "mro_at", "mro_len",
+            "str_box", "rx_compile")
 
     def __init__(self):
         self.ctx = z3.main_ctx()
@@ -438,7 +453,8 @@ class Scanner:
         self.keep = []                      # keep the roots alive
         self.ufid = {}
         for name, f in (("cnt", cnt), ("rem1", rem1), ("without", without), ("dedup", dedup), ("setnth", setnth), ("minus", minus), ("sub", sub),
-                        ("mkpair", mkpair), ("cls_ref", cls_ref)):
+                        ("mkpair", mkpair), ("cls_ref", cls_ref), ("mro_at", mro_at), ("mro_len", mro_len), ("str_box", str_box),
+                        ("rx_compile", rx_compile)):
             self.ufid[_c.Z3_get_ast_id(self.cref, _c.Z3_func_decl_to_ast(self.cref, f.ast))] = name
         self.ref_sort_id = _c.Z3_get_ast_id(self.cref, _c.Z3_sort_to_ast(self.cref, Ref.ast))
 
@@ -544,6 +560,15 @@ def axioms_for(found, class_axioms, seen_cls):
         new.append(psnd(t) == t.arg(1))
     for t in found.get("cls_ref", ()):
         new.append(cls_unref(t) == t.arg(0))
+    for t in list(found.get("mro_at", ())) + list(found.get("mro_len", ())):
+        c = t.arg(0)                                         # Python: cls.__mro__ is non-empty and starts with cls itself
+        new.append(mro_len(c) >= 1)
+        new.append(mro_at(c, IntVal(0)) == c)
+    for t in found.get("str_box", ()):                       # str() of a str is the str itself
+        new.append(py_str(t) == t.arg(0))
+    for t in found.get("rx_compile", ()):                    # re.compile returns a pattern object (A10)
+        new.append(is_pattern(t))
+        new.append(t != NONE)
     for t in found["nth"]:
         if t.sort().eq(Ref):                                 # getElem_mem
             s, i = t.arg(0), t.arg(1)
